@@ -43,6 +43,8 @@ def unodes(n):
 
 class ErrSampler(object):
     def __init__(self, case):
+        # (0 is a seed like any other)
+        self.seed = case.get('sample_seed', SEED)
         self.code = case['code']
         self.params = case['params']
         self.ybar = np.array(case['ybar'], dtype=float)
@@ -68,7 +70,7 @@ class ErrSampler(object):
         yb = np.array(self.ybar, dtype=float)
         p0, y0 = par.copy(), yb.copy()
         r = np.asarray(self.model.sample(
-            par, yb, n_samples=self.n_samples, seed=SEED), dtype=float)
+            par, yb, n_samples=self.n_samples, seed=self.seed), dtype=float)
         # the arrays handed over are the caller's
         self.mutated = getattr(self, 'mutated', False) or not (
             np.array_equal(par, p0) and np.array_equal(yb, y0))
@@ -92,6 +94,7 @@ class ErrSampler(object):
 
 class PopSampler(object):
     def __init__(self, case):
+        self.seed = case.get('sample_seed', SEED)
         self.spec = case['spec']
         self.n_samples = case['n_samples']
         self.top = np.array(case['top'], dtype=float)
@@ -111,7 +114,7 @@ class PopSampler(object):
         cov = None if self.cov is None else self.cov.copy()
         kw = {} if cov is None else {'covariates': cov}
         r = np.asarray(self.model.sample(
-            top, n_samples=self.n_samples, seed=SEED, **kw), dtype=float)
+            top, n_samples=self.n_samples, seed=self.seed, **kw), dtype=float)
         self.mutated = getattr(self, 'mutated', False) or not (
             np.array_equal(top, self.top) and (
                 cov is None or np.array_equal(cov, self.cov)))
@@ -481,6 +484,9 @@ def build(tier, seed):
             pop.append({'family': 'pop', 'spec': spec, 'n_samples': ns,
                         'top': top, 'cov': None if cov is None else cov.tolist(),
                         'n_nodes': n_nodes})
+    # integer seeds 0 and 7 alternate over the cases
+    for k_, c_ in enumerate(err + pop):
+        c_['sample_seed'] = 0 if k_ % 2 else 7
     return {
         'parts': [
             Part('error_models', err, w_sampler,
